@@ -176,6 +176,30 @@ theorem poisson_gap_bound (n : ℕ) (A' : List (List ℝ)) (base' w b lb : List 
   unfold poissonGrad at hm' ⊢
   linarith
 
+/-- **C07/C05 (a joint Poisson batch is separable)**: the objective of the stacked problem (weights, targets and predictions of
+    several samples concatenated — what a batch of size > 1 hands to the solver) is the sum of the samples' own objectives; with
+    block-diagonal predictions and a product feasible set, the batch is minimised iff every sample is (`C05` block theorem). -/
+theorem poissonObj_append (w1 b1 p1 w2 b2 p2 : List ℝ) (h1 : w1.length = b1.length) (h2 : b1.length = p1.length) :
+    poissonObj (w1 ++ w2) (b1 ++ b2) (p1 ++ p2) = poissonObj w1 b1 p1 + poissonObj w2 b2 p2 := by
+  induction w1 generalizing b1 p1 with
+  | nil =>
+    cases b1 with
+    | nil =>
+      cases p1 with
+      | nil => simp [poissonObj_nil]
+      | cons _ _ => simp at h2
+    | cons _ _ => simp at h1
+  | cons w ws ih =>
+    cases b1 with
+    | nil => simp at h1
+    | cons b bs =>
+      cases p1 with
+      | nil => simp at h2
+      | cons p ps =>
+        have := ih bs ps (by simpa using h1) (by simpa using h2)
+        simp only [List.cons_append, poissonObj_cons, this]
+        ring
+
 /-- Tangent inequality in intensity space: with `g` the gradient at `x`, `obj(x) + (g·y − g·x) ≤ obj(y)` for any two intensity
     vectors with positive predicted capture (no bounds involved). -/
 theorem poisson_tangent_x (n : ℕ) (A' : List (List ℝ)) (base' w b x y : List ℝ)
